@@ -43,14 +43,16 @@ func runHuntCase(a []string) string {
 	return tf(na == nb) + " " + strconv.Itoa(na)
 }
 
+// countNA: number of distinct destinations of the neighbour advertisements (one per running hunt; a loop
+// whose own 2 s timer fires inside the window sends a second one to the same destination)
 func countNA(fs [][]byte) int {
-	n := 0
+	seen := map[string]bool{}
 	for _, f := range fs {
 		if len(f) > 54 && f[12] == 0x86 && f[13] == 0xdd && f[20] == 58 && f[54] == 136 {
-			n++
+			seen[string(f[0:6])] = true
 		}
 	}
-	return n
+	return len(seen)
 }
 
 func huntRun(toks []string, shared bool, fill, stp byte) int {
